@@ -400,6 +400,18 @@ def check_C10(ctx):
             ctx.violation('apply-crash', 'apply_macros crashed: ' + raw[:300], {'source': text, 'passes': b})
             continue
         toks = parse_toks(f['toks'])
+        # names the expansion invented (not a token of the source): whatever their spelling, a user must not be able to write them
+        try:
+            srcset = {tx for (_, tx, _) in lexoracle.lex(text.encode('latin1'))}
+        except Exception:
+            srcset = None
+        if srcset is not None:
+            for t in toks:
+                if t[1] not in srcset and t[0] != 0:
+                    lx = lexoracle.lex(t[1])
+                    if len(lx) == 1 and lx[0][0] == 1 and lx[0][1] == t[1]:
+                        ctx.violation('temp-name-user-writable', 'the expansion invented the name %r, which is an ordinary identifier a user can write' % t[1], {'source': text, 'passes': b})
+                        break
         temps = [t for t in toks if t[0] == 1 and t[1].startswith(b'#')]
         groups = {}
         for t in temps:
@@ -753,6 +765,33 @@ def check_C04(ctx, thms=None):
             text = ' '.join(ts)
             cases.append((b'm', {b'm': text.encode('latin1')}, {'text': {'m': text}}))
             verdicts.append((v, why))
+    # jumps to labels of ANOTHER body: from the main body into each program (the last one in particular), from a program into
+    # the main body or into another program; label names that exist in one body only
+    for _ in range(ctx.n(120, 1200)):
+        g = sources.Gen(r)
+        defs, main = g.program()
+        if not defs:
+            continue
+        defs = [list(d) for d in defs]
+        # give every body a label of its own: q<i> at the start of program i, qm in the main body
+        for i, d in enumerate(defs):
+            d[3] = [['label', 'q%d' % i, 0]] + d[3]
+        main = [['label', 'qm', 0]] + main
+        bodies = [d[3] for d in defs] + [main]
+        src = r.randrange(len(bodies))
+        tgt = r.choice([j for j in range(len(bodies)) if j != src] + [len(defs) - 1])
+        if tgt == src:
+            continue
+        lab = 'qm' if tgt == len(defs) else 'q%d' % tgt
+        jump = ['goto', lab, 0] if r.random() < 0.5 else ['if', 'x0', r.randint(0, 2), lab, 0]
+        bodies[src].insert(r.randrange(1, len(bodies[src]) + 1), jump)
+        ts = sources.toks([tuple(d) for d in defs], main)
+        v, why, info = strict.verdict(ts)
+        if info.dup:
+            continue
+        text = sources.text_of_tokens(sources.respell(ts, r), r)
+        cases.append((b'm', {b'm': text.encode('latin1')}, {'text': {'m': text}}))
+        verdicts.append((v, why))
     # every literal position (assignment, +/- operand, IF constant, RUN argument) with the boundary literals
     BND = ['2147483646', '2147483647', '2147483648', '4294967296', '9223372036854775808', '99999999999999999999']
     for _ in range(ctx.n(40, 400)):
